@@ -273,6 +273,7 @@ func runC07(c *core.Ctx) core.Meta {
 	c.BuildSSA()
 	checkEndedWavefrontReleasesRegisters(c)
 	checkOperandDecodedFromOwnBytes(c, emuPkg, "amd/timing/wavefront")
+	checkWavefrontsCreatedFresh(c)
 	prov := core.NewProv(c)
 
 	// ---------------- R07.7 register reads hand out their own bytes (fresh.go) ----------------
